@@ -1438,10 +1438,17 @@ func (e *lfEngine) tableLookup(fr *lfFrame, st *lfState, x *ssa.Lookup, cont fun
 		fn *ssa.Function
 	}
 	var ents []ent
+	membership := false // a table of something else than functions, asked `_, ok := m[k]`
 	for _, en := range tbl.Entries {
 		k, isK := en.K.Int()
-		if !isK || en.V.Kind != "func" {
+		if !isK {
 			return false
+		}
+		if en.V.Kind != "func" {
+			if !x.CommaOk || len(tbl.Entries) > 64 {
+				return false
+			}
+			membership = true
 		}
 		ents = append(ents, ent{k, en.V.Func})
 	}
@@ -1454,6 +1461,13 @@ func (e *lfEngine) tableLookup(fr *lfFrame, st *lfState, x *ssa.Lookup, cont fun
 		var v lfVal = vNilable{ID: e.id(), Nil: 1}
 		if found {
 			v = vNilable{ID: e.id(), Nil: 2, Inner: vFunc{Fn: fn}}
+		}
+		if membership {
+			if tt, isT := x.Type().(*types.Tuple); isT && tt.Len() > 0 {
+				v = e.fresh(s2, tt.At(0).Type(), g.Name()+"[…]")
+			} else {
+				v = vOpaque{}
+			}
 		}
 		if x.CommaOk {
 			f2.env[x] = vTuple{v, vBoolConst(found)}
